@@ -135,7 +135,10 @@ def runMki (f : List String) (got : String) : MkResult :=
             let covS := match e.sigCovered with | some c => hexOrDash c | none => "nil"
             (s!"ok w={hexOrDash e.wire.flatten} {recEcho rec} sv={hexNil (if est > 0 then some e.sigVal else none)} cov={covS} rc={covS} fn={Name.toText fn}{segsEcho gt}",
              [if est > 0 then "mki-signed" else "mki-unsigned", if need then "interest-digest" else "interest-noparams",
-              if e.wire.map List.length == segsOf gt then "segs-match" else "segs-differ"] ++
+              if e.wire.map List.length == segsOf gt then "segs-match" else "segs-differ",
+              (match decTL (e.wire.flatten.drop 1) with
+               | some (l, _) => if tlLen l < tlLen (interestLen i (interestName op.name need)) then "outer-len-narrowed" else "outer-len-same"
+               | none => "outer-len-same")] ++
              (if est > 0 ∧ e.sigVal.length < est then ["sig-shrink"] else []) ++
              (if est ≥ 253 then ["sig-est-ge253"] else []))
           | r => (resText (r.bind fun _ => .ok "") ++ s!" {recEcho rec}", ["mki-err"])
